@@ -865,3 +865,71 @@ func HarnessAXMapSwitch() {
 	}
 	verifrt.Assert(!sounding, "C01: disconnect releases every note that is still sounding")
 }
+
+// ---------------------------------------------------------------------------------------------
+// C05/C06: one device, two event nodes carrying the same axis code with different ranges
+
+func init() {
+	VerifHarnesses["HarnessAXTwoNodes"] = HarnessAXTwoNodes
+}
+
+// HarnessAXTwoNodes: a multi-node device (a stick node reporting ABS_X in 0..255 and a touchpad node reporting
+// ABS_X in 0..1919, each mapped to its own controller). An arbitrary position from one node, then an arbitrary
+// position from the other (either order): every message is well-formed and each transmitted value is the
+// position scaled with the range of the node it came from (within one step, exact at the end stops).
+func HarnessAXTwoNodes() {
+	type node struct {
+		sub, event string
+		max        int64
+		cc         uint8
+	}
+	nodes := [2]node{{"", "event0", 255, 20}, {"Touchpad", "event1", 1919, 21}}
+	km := config.KeyMapping{
+		Name: "m0",
+		Midi: map[string]map[evdev.EvCode]config.Key{},
+		Analog: map[string]map[evdev.EvCode]config.Analog{
+			"":         {evdev.ABS_X: {MappingType: config.AnalogCC, CC: 20}},
+			"Touchpad": {evdev.ABS_X: {MappingType: config.AnalogCC, CC: 21}},
+		},
+		Deadzones:       map[string]map[evdev.EvCode]float64{},
+		DefaultDeadzone: map[string]float64{"": 0},
+	}
+	cfg := config.Config{KeyMappings: []config.KeyMapping{km}, ActionMapping: map[evdev.EvCode]config.Action{},
+		CollisionMode: config.CollisionOff, Defaults: config.Defaults{Channel: 1, Velocity: 64}}
+	out := make(chan midi.Event, 16)
+	idev := input.Device{AbsInfos: map[string]map[evdev.EvCode]evdev.AbsInfo{
+		"event0": {evdev.ABS_X: {Minimum: 0, Maximum: 255}},
+		"event1": {evdev.ABS_X: {Minimum: 0, Maximum: 1919}},
+	}}
+	d := NewDevice(idev, config.DeviceConfig{Config: cfg}, out, nil, true, 0, make(chan os.Signal, 1))
+	first := 0
+	if verifrt.Bool("first.is.touchpad") {
+		first = 1
+	}
+	for step := 0; step < 2; step++ {
+		nd := nodes[(first+step)%2]
+		r := verifrt.I32(verifrt.N("raw", step))
+		raw := int64(r)
+		verifrt.Assume(raw >= 0 && raw <= nd.max)
+		ev := absEvent(nd.sub, evdev.ABS_X, r)
+		ev.Source.DeviceInfo = input.VerifDeviceInfo("pad", nd.event)
+		d.processEvent(ev)
+		n, msgs := drain(out)
+		verifrt.Assert(n <= 1, "C05/C06: one axis position produces at most one message")
+		if n == 1 {
+			e := msgs[0]
+			verifrt.Assert(wellFormed(e), "C05: every message of a multi-node device is a well-formed 3-byte message")
+			ok := len(e) == 3 && e[0] == midi.ControlChange && e[1] == nd.cc
+			verifrt.Assert(ok, "C06: the position is sent on the controller mapped for the node it came from")
+			if ok {
+				pos := int64(e[2])
+				// exact value 127*raw/max: within one step, exact at the end stop
+				verifrt.Assert((pos-1)*nd.max <= 127*raw && 127*raw < (pos+2)*nd.max, "C06: transmitted value within one step of the exact scaled position (range of the node the event came from)")
+				if raw == nd.max {
+					verifrt.Assert(pos == 127, "C06: physical end stops map exactly to the ends of the range")
+				}
+				verifrt.Cover("C06: a position of a multi-node device transmitted")
+			}
+		}
+	}
+}
